@@ -1,9 +1,11 @@
 ---- MODULE MC_HttpFraming ----
 (* Scopes of the C13 model-checking configurations.  The byte tuples of the whole messages are  *)
 (* generated (the text is in the comment behind each).                                        *)
-EXTENDS HttpFraming
+EXTENDS HttpFraming, IOUtils
+CONSTANT Scope     \* which scope the configuration explores (TLC evaluates every zero-arity definition at start-up,
+                   \* so the scopes below take a dummy parameter and only ScopeMsgs is a constant)
 M(k, b) == [kind |-> k, bytes |-> b]
-HeadsQuick == {
+HeadsQuick(x) == {
   M("resp", <<72,84,84,80,47,49,46,49,32,50,48,48,32,13,10,67,111,110,116,101,110,116,45,76,101,110,103,116,104,58,32,51,13,10,13,10,97,98,99>>)   (* HTTP/1.1 200 \r\nContent-Length: 3\r\n\r\nabc *),
   M("resp", <<72,84,84,80,47,49,46,49,32,50,48,48,32,79,75,13,10,67,111,110,116,101,110,116,45,76,101,110,103,116,104,58,32,48,13,10,13,10>>)   (* HTTP/1.1 200 OK\r\nContent-Length: 0\r\n\r\n *),
   M("resp", <<72,84,84,80,47,49,46,49,32,50,48,48,32,13,10,84,114,97,110,115,102,101,114,45,69,110,99,111,100,105,110,103,58,32,99,104,117,110,107,101,100,13,10,13,10,50,13,10,97,98,13,10,48,13,10,13,10>>)   (* HTTP/1.1 200 \r\nTransfer-Encoding: chunked\r\n\r\n2\r\nab\r\n0\r\n\r\n *),
@@ -16,7 +18,7 @@ HeadsQuick == {
   M("req", <<80,79,83,84,32,47,112,32,72,84,84,80,47,49,46,49,13,10,67,79,78,84,69,78,84,45,76,69,78,71,84,72,58,32,50,13,10,13,10,97,98>>)   (* POST /p HTTP/1.1\r\nCONTENT-LENGTH: 2\r\n\r\nab *),
   M("req", <<80,85,84,32,47,117,32,72,84,84,80,47,49,46,49,13,10,84,114,97,110,115,102,101,114,45,69,110,99,111,100,105,110,103,58,32,99,104,117,110,107,101,100,13,10,13,10,49,13,10,33,13,10,48,13,10,13,10>>)   (* PUT /u HTTP/1.1\r\nTransfer-Encoding: chunked\r\n\r\n1\r\n!\r\n0\r\n\r\n *)
 }
-HeadsMore == {
+HeadsMore(x) == {
   M("resp", <<72,84,84,80,47,49,46,49,32,50,48,48,32,79,75,13,10,84,82,65,78,83,70,69,82,45,69,78,67,79,68,73,78,71,58,32,99,104,117,110,107,101,100,13,10,88,45,121,58,32,32,122,13,10,13,10,97,13,10,48,49,50,51,52,53,54,55,56,57,13,10,49,49,13,10,65,66,67,68,69,70,71,72,73,74,75,76,77,78,79,80,81,13,10,48,13,10,13,10>>)   (* HTTP/1.1 200 OK\r\nTRANSFER-ENCODING: chunked\r\nX-y:  z\r\n\r\na\r\n0123456789\r\n11\r\nABCDEFGHIJKLMNOPQ\r\n0\r\n\r\n *),
   M("resp", <<72,84,84,80,47,49,46,48,32,50,48,48,32,79,75,13,10,67,111,110,110,101,99,116,105,111,110,58,32,107,101,101,112,45,97,108,105,118,101,13,10,67,111,110,116,101,110,116,45,76,101,110,103,116,104,58,32,49,13,10,13,10,33>>)   (* HTTP/1.0 200 OK\r\nConnection: keep-alive\r\nContent-Length: 1\r\n\r\n! *),
   M("resp", <<72,84,84,80,47,49,46,49,32,50,48,48,32,79,75,13,10,67,111,110,110,101,99,116,105,111,110,58,32,107,101,101,112,45,97,108,105,118,101,13,10,13,10>>)   (* HTTP/1.1 200 OK\r\nConnection: keep-alive\r\n\r\n *),
@@ -24,7 +26,7 @@ HeadsMore == {
   M("req", <<72,69,65,68,32,47,104,32,72,84,84,80,47,49,46,49,13,10,67,111,110,116,101,110,116,45,76,101,110,103,116,104,58,32,53,13,10,13,10>>)   (* HEAD /h HTTP/1.1\r\nContent-Length: 5\r\n\r\n *),
   M("req", <<68,69,76,69,84,69,32,47,100,63,113,32,72,84,84,80,47,49,46,48,13,10,98,58,32,49,13,10,97,58,32,50,13,10,99,58,32,51,13,10,13,10>>)   (* DELETE /d?q HTTP/1.0\r\nb: 1\r\na: 2\r\nc: 3\r\n\r\n *)
 }
-HeadsThorough == HeadsQuick \cup HeadsMore
+HeadsThorough(x) == HeadsQuick(x) \cup HeadsMore(x)
 
 \* chunked bodies as a sender produces them: chunk sizes from cs, at most two chunks, then the last chunk
 Data(n, base) == [i \in 1..n |-> base + ((i - 1) % 23)]
@@ -38,12 +40,14 @@ ChunkWriters(ws) == {[kind |-> "wchunk", data |-> Data(a, 97), sizes |-> <<a>>] 
    \cup {[kind |-> "wchunk", data |-> Data(a + c, 97), sizes |-> <<a, c>>] : a \in ws, c \in ws}
 LenWriters(ws, dns) == {[kind |-> "wlen", data |-> Data(a + c, 97), sizes |-> <<a, c>>, dn |-> d] : a \in ws, c \in ws, d \in dns}
 
-ValidQuick == HeadsQuick \cup ChunkedBodies({1, 2, 3, 10, 16, 17}, {1, 3, 16}) \cup PlainBodies({0, 1, 5})
+ValidQuick(x) == HeadsQuick(x) \cup ChunkedBodies({1, 2, 3, 10, 16, 17}, {1, 3, 16}) \cup PlainBodies({0, 1, 5})
               \cup ChunkWriters({1, 2, 16, 17}) \cup LenWriters({0, 2, 3}, {0, 4, 5})
-ValidThorough == HeadsThorough \cup ChunkedBodies({1, 2, 3, 10, 16, 17}, {1, 2, 3, 10, 16, 17}) \cup PlainBodies({0, 1, 2, 5, 20})
+ValidThorough(x) == HeadsThorough(x) \cup ChunkedBodies({1, 2, 3, 10, 16, 17}, {1, 2, 3, 10, 16, 17}) \cup PlainBodies({0, 1, 2, 5, 20})
               \cup ChunkWriters({1, 2, 3, 10, 16, 17}) \cup LenWriters({0, 1, 2, 3}, {0, 3, 4, 5})
+\* three cuts: short messages only
+ThreeCuts(x) == {m \in HeadsQuick(x) : Len(m.bytes) <= 40} \cup ChunkedBodies({1, 2, 3, 16, 17}, {1, 3}) \cup PlainBodies({0, 2, 5})
 \* known finding "zeroWrite": the same writers with empty writes in scope
-ZeroWriters == ChunkWriters({0, 2})
+ZeroWriters(x) == ChunkWriters({0, 2})
 
 \* malformed input: every string over a small alphabet
 Strings(A, n) == UNION {[1..k -> A] : k \in 0..n}
@@ -57,6 +61,15 @@ MalStarts(n) == {M("resp", x \o CRLFCRLF) : x \in Strings(StartAlphabet, n)} \cu
 ChunkAlphabet == {13, 10, 48, 50, 97, 103}                      \* CR LF '0' '2' 'a' 'g'
 MalChunks(n) == {[kind |-> "cbody", bytes |-> x] : x \in Strings(ChunkAlphabet, n)}
 Truncations(ms) == UNION {{[m EXCEPT !.bytes = SubSeq(m.bytes, 1, k)] : k \in 0..(Len(m.bytes) - 1)} : m \in ms}
-MalQuick == MalHeads(4) \cup MalStarts(4) \cup MalChunks(5) \cup Truncations(HeadsQuick)
-MalThorough == MalHeads(6) \cup MalStarts(5) \cup MalChunks(7) \cup Truncations(HeadsThorough)
+MalQuick(x) == MalHeads(3) \cup MalStarts(3) \cup MalChunks(4) \cup Truncations(HeadsQuick(x))
+MalThorough(x) == MalHeads(5) \cup MalStarts(5) \cup MalChunks(6) \cup Truncations(HeadsThorough(x))
+\* scope of the known-finding configuration: one witness per KF switch
+KfScope(x) == {M("req", <<71,69,84,32,47,32,72,84,84,80,47,49,46,49,13,10,13,10>>),                       (* GET / HTTP/1.1\r\n\r\n *)
+               M("resp", P_RESP \o <<65,117,116,104,111,114,105,122,97,116,105,111,110,58,32,120>> \o CRLFCRLF),  (* Authorization: x *)
+               M("resp", P_RESP \o <<97,98,99>> \o CRLFCRLF)}                                              (* header line without colon *)
+              \cup ZeroWriters(x)
+ScopeMsgs == CASE Scope = "kf" -> KfScope(0) [] Scope = "valid-quick" -> ValidQuick(0) [] Scope = "valid-thorough" -> ValidThorough(0)
+              [] Scope = "mal-quick" -> MalQuick(0) [] Scope = "mal-thorough" -> MalThorough(0)
+              [] Scope = "three-cuts" -> ThreeCuts(0) [] Scope = "zero-writers" -> ZeroWriters(0) [] Scope = "heads-quick" -> HeadsQuick(0) [] Scope = "heads-thorough" -> HeadsThorough(0)
+KFEnv == IF "KF" \in DOMAIN IOEnv THEN {IOEnv.KF} ELSE {}     \* MC_HttpFraming_kf.cfg: the switch named by the environment variable KF
 ====
